@@ -8,6 +8,7 @@ from .. import bits, fields
 from ..core import call_attr, calls_in, const, dotted, is_const, kwarg, norm, slice_parts, text, walk_local
 
 EXPLANATION = [
+    'C01.empty-payload: the from_bytes of HCI_AclDataPacket / HCI_SynchronousDataPacket / HCI_IsoDataPacket never reject a packet on the truthiness of its payload slice (an empty payload is a legal value).',
     'C01.parsed-verbatim: in every function of bumble.hci that binds names with struct.unpack / unpack_from, no such name is afterwards replaced by a value that does not depend on it (zeroed, defaulted): parsed fields reach the object as read.',
     'C01.return-parameters-fields: every HCI return-parameters dataclass that declares fields of its own gets a wire layout: passed to sync_command(...) or given `fields` explicitly.',
     'C01.walrus: no assignment expression in bumble.hci captures the result of a comparison instead of the compared value (`x := d.get(k) is not None`).',
@@ -683,7 +684,36 @@ def parsed_verbatim(ctx):
     rebound_parsed_names(ctx, 'C01.parsed-verbatim', ['bumble.hci'], floor=5)
 
 
+def empty_payload(ctx):
+    """An empty payload is a value: the from_bytes of the three HCI data packet classes reject a packet on its length
+    fields only, never on the truthiness of the payload (`not data` is true for a zero-length ACL / SCO / ISO payload)."""
+    R, p = ctx.r, ctx.p
+    rule = 'C01.empty-payload'
+    n = 0
+    for cn in ('HCI_AclDataPacket', 'HCI_SynchronousDataPacket', 'HCI_IsoDataPacket'):
+        fn = p.find(f'bumble.hci.{cn}.from_bytes')
+        if fn is None:
+            R.bad(rule, f'bumble.hci.{cn}.from_bytes', 'anchor missing')
+            continue
+        n += 1
+        sliced = {t.id for st in walk_local(fn) if isinstance(st, ast.Assign) and isinstance(st.value, ast.Subscript) and isinstance(st.value.slice, ast.Slice) for t in st.targets if isinstance(t, ast.Name)}
+        bad = []
+        for i_ in [x for x in walk_local(fn) if isinstance(x, ast.If) and any(isinstance(y, ast.Raise) for y in ast.walk(x))]:
+            atoms = [i_.test]
+            while atoms:
+                a = atoms.pop()
+                if isinstance(a, ast.BoolOp):
+                    atoms += a.values
+                elif isinstance(a, ast.UnaryOp) and isinstance(a.op, ast.Not):
+                    atoms.append(a.operand)
+                elif isinstance(a, ast.Name) and a.id in sliced:
+                    bad.append(i_)
+        R.check(not bad, rule, f'bumble.hci.{cn}.from_bytes', 'rejects on lengths only', f'`{norm(bad[0].test)[:60] if bad else ""}` rejects a packet whose payload is empty: a zero-length {cn} that Bumble itself builds no longer parses back', p.loc(bad[0]) if bad else p.loc(fn))
+    R.check(n == 3, rule, 'bumble.hci | data packet parsers', '3 parsers', f'{n} found')
+
+
 RULES = [
+    ('C01.empty-payload', empty_payload),
     ('C01.parsed-verbatim', parsed_verbatim),
     ('C01.return-parameters-fields', return_parameters_fields),
     ('C01.walrus', walrus_rule),
